@@ -238,8 +238,14 @@ def _subst_types(obj, tmap, doc=None):
         if isinstance(x, list):
             return [walk(v, typed) for v in x]
         if isinstance(x, dict):
-            return {k: walk(v, typed or k in _TYPE_FIELDS) if not (k in ('path', 'key', 'name', 'crate', 'k', 'f', 'adt', 'variant', 'op', 'cast') and isinstance(v, str)) else v
-                    for k, v in x.items()}
+            out = {k: walk(v, typed or k in _TYPE_FIELDS) if not (k in ('path', 'key', 'name', 'crate', 'k', 'f', 'adt', 'variant', 'op', 'cast') and isinstance(v, str)) else v
+                   for k, v in x.items()}
+            if out.get('k') == 'repeat' and isinstance(out.get('n'), str):
+                # `[x; N]` with N a const generic parameter of the inlined callee
+                nn = sub(out['n'])
+                mm = re.match(r'^(\d+)(_usize)?$', nn.strip())
+                out['n'] = int(mm.group(1)) if mm else nn
+            return out
         return x
     return walk(obj, False)
 
@@ -1592,3 +1598,232 @@ def expand_array_from_fn(doc):
             n += 1
     doc.setdefault('meta', {})['expanded_array_from_fn'] = n
     return doc
+
+
+
+# N3j a `for x in <slice over an array of k elements, k small and known>` loop is its k iterations in sequence: the loop blocks are
+#     cloned once per element with `next()` replaced by `Some(&arr[i])`, and once more with `None` (which leaves the loop).  Locals
+#     are shared between the copies exactly as they are between the iterations of the loop.  This is what turns a helper that
+#     loops over `&[a, b, c]` (inlined into its caller, where the literal is visible) back into straight-line code.
+_UNROLL_MAX = 8
+
+
+def _succ_of(t):
+    k = t.get('k')
+    if k == 'goto':
+        return [t['target']]
+    if k == 'switch':
+        return [b for _, b in t['targets']] + [t['otherwise']]
+    if k in ('call', 'drop', 'assert'):
+        out = [t['target']] if t.get('target') is not None else []
+        u = t.get('unwind')
+        if isinstance(u, int):
+            out.append(u)
+        return out
+    return []
+
+
+def _retarget(t, m):
+    t = copy.deepcopy(t)
+    k = t.get('k')
+    if k == 'goto':
+        t['target'] = m(t['target'])
+    elif k == 'switch':
+        t['targets'] = [[v, m(b)] for v, b in t['targets']]
+        t['otherwise'] = m(t['otherwise'])
+    elif k in ('call', 'drop', 'assert'):
+        if t.get('target') is not None:
+            t['target'] = m(t['target'])
+    return t
+
+
+def _single_def(b, l):
+    ds = []
+    for bi, blk in enumerate(b['blocks']):
+        for st in blk['stmts']:
+            if st.get('k') == 'assign' and st['place'] == {'l': l, 'p': []}:
+                ds.append(('stmt', bi, st))
+        t = blk['term']
+        if t.get('k') == 'call' and t.get('dest') == {'l': l, 'p': []}:
+            ds.append(('call', bi, t))
+    return ds[0] if len(ds) == 1 else None
+
+
+def _array_len_of_ref(b, op, depth=0):
+    """number of elements of the array a slice/array reference operand points to, following moves, reborrows and unsizing"""
+    if depth > 8 or op.get('k') not in ('copy', 'move') or op['place']['p']:
+        return None
+    l = op['place']['l']
+    ty = b['locals'][l]['ty']
+    m = re.match(r'^&(?:mut )?\[.*; (\d+)\]$', ty)
+    if m:
+        return int(m.group(1))
+    d = _single_def(b, l)
+    if d is None or d[0] != 'stmt':
+        return None
+    rv = d[2]['rv']
+    if rv['k'] == 'use':
+        return _array_len_of_ref(b, rv['op'], depth + 1)
+    if rv['k'] == 'cast' and str(rv.get('cast', '')).startswith('PointerCoercion(Unsize'):
+        return _array_len_of_ref(b, rv['op'], depth + 1)
+    if rv['k'] == 'ref' and rv['place']['p'] == ['deref']:
+        return _array_len_of_ref(b, {'k': 'copy', 'place': {'l': rv['place']['l'], 'p': []}}, depth + 1)
+    if rv['k'] == 'ref' and not rv['place']['p']:
+        m = re.match(r'^\[.*; (\d+)\]$', b['locals'][rv['place']['l']]['ty'])
+        return int(m.group(1)) if m else None
+    return None
+
+
+def unroll_literal_loops(doc):
+    n = 0
+    for b in doc['bodies']:
+        guard = 0
+        while guard < 8:
+            guard += 1
+            if not _unroll_one(b):
+                break
+            n += 1
+    doc.setdefault('meta', {})['unrolled_loops'] = n
+    return doc
+
+
+def _unroll_one(b):
+    blocks = b['blocks']
+    L = b['locals']
+    for H, hb in enumerate(blocks):
+        t = hb['term']
+        if hb.get('cleanup') or hb.get('unrolled') or t.get('k') != 'call' or t.get('target') is None or len(t.get('args', [])) != 1 or t['dest']['p']:
+            continue
+        fn = (t.get('func') or {}).get('fn') or {}
+        if fn.get('path') != 'core::iter::Iterator::next' or not str(t['arg_tys'][0]).startswith('&mut core::slice::Iter<'):
+            continue
+        # the iterator local behind the `&mut` argument
+        op = t['args'][0]
+        it = None
+        for _ in range(6):
+            if op.get('k') not in ('copy', 'move') or op['place']['p']:
+                break
+            d = _single_def(b, op['place']['l'])
+            if d is None or d[0] != 'stmt' or d[2]['rv']['k'] != 'ref':
+                break
+            pl = d[2]['rv']['place']
+            if not pl['p']:
+                it = pl['l']
+                break
+            if pl['p'] != ['deref']:
+                break
+            op = {'k': 'copy', 'place': {'l': pl['l'], 'p': []}}
+        if it is None:
+            continue
+        # iter = [move] into_iter(S) / iter(S)
+        src = None
+        cur = it
+        for _ in range(4):
+            d = _single_def(b, cur)
+            if d is None:
+                break
+            if d[0] == 'stmt' and d[2]['rv']['k'] == 'use' and d[2]['rv']['op'].get('k') in ('copy', 'move') and not d[2]['rv']['op']['place']['p']:
+                cur = d[2]['rv']['op']['place']['l']
+                continue
+            if d[0] == 'call':
+                f2 = (d[2].get('func') or {}).get('fn') or {}
+                if (f2.get('path') == 'core::iter::IntoIterator::into_iter' or (f2.get('name') == 'iter' and 'slice' in str(f2.get('path')))) and len(d[2]['args']) == 1:
+                    src = d[2]['args'][0]
+            break
+        if src is None or src.get('k') not in ('copy', 'move') or src['place']['p']:
+            continue
+        k = _array_len_of_ref(b, src)
+        if k is None or not (0 < k <= _UNROLL_MAX):
+            continue
+        sty = L[src['place']['l']]['ty']
+        if not sty.startswith('&') or sty.startswith('&mut'):
+            continue
+        # the loop: H -> S1 (switch on the discriminant of next's result: 0 -> exit, 1 -> body) ... -> H
+        S1 = t['target']
+        st1 = blocks[S1]['term']
+        if st1.get('k') != 'switch' or S1 == H:
+            continue
+        tg = dict((v, bb) for v, bb in st1['targets'])
+        if 0 not in tg or (1 not in tg and st1.get('otherwise') is None):
+            continue
+        body_entry = tg.get(1, st1['otherwise'])
+        exit_b = tg[0]
+        # natural loop: blocks reachable from the body entry without passing H, that reach H
+        fwd = set()
+        stack = [body_entry]
+        while stack:
+            x = stack.pop()
+            if x in fwd or x == H:
+                continue
+            fwd.add(x)
+            stack.extend(_succ_of(blocks[x]['term']))
+        pred = {}
+        for i, blk in enumerate(blocks):
+            for y in _succ_of(blk['term']):
+                pred.setdefault(y, set()).add(i)
+        back = set()
+        stack = [H]
+        while stack:
+            x = stack.pop()
+            for p_ in pred.get(x, ()):
+                if p_ in fwd and p_ not in back:
+                    back.add(p_)
+                    stack.append(p_)
+        loop = back | {H, S1}
+        if exit_b in loop or any(blocks[x].get('cleanup') for x in loop):
+            continue
+        # single entry: nothing outside the loop jumps into it except to H
+        if any(p_ not in loop for x in loop if x != H for p_ in pred.get(x, ())):
+            continue
+        if not any(p_ in loop for p_ in pred.get(H, ())):
+            continue
+        order = sorted(loop)
+        line = t.get('line')
+        elem_ty = None
+        m = re.match(r"^&mut core::slice::Iter<'_, (.*)>$", str(t['arg_tys'][0]))
+        if m:
+            elem_ty = m.group(1)
+        if elem_ty is None:
+            continue
+        da = _ty_args(t['dest_ty'])
+        base = len(blocks)
+        idx = {x: j for j, x in enumerate(order)}
+        per = len(order)
+
+        def mapper(i):
+            def m_(x):
+                if x == H:
+                    return base + (i + 1) * per + idx[H]
+                if x in idx:
+                    return base + i * per + idx[x]
+                return x
+            return m_
+        for i in range(k + 1):
+            for x in order:
+                ob = blocks[x]
+                nb = {'cleanup': ob.get('cleanup', False), 'stmts': copy.deepcopy(ob['stmts']), 'unrolled': True, 'syn': 'unroll'}
+                if 'inl' in ob:
+                    nb['inl'] = ob['inl']
+                if x == H:
+                    if i < k:
+                        L.append({'ty': '&' + elem_ty, 'ty_raw': '&' + elem_ty, 'name': None, 'mut': True, 'synthetic': True})
+                        e_l = len(L) - 1
+                        nb['stmts'].append({'k': 'assign', 'place': {'l': e_l, 'p': []}, 'rv': {'k': 'ref', 'mut': False, 'fake': False,
+                                            'place': {'l': src['place']['l'], 'p': ['deref', {'cindex': i, 'from_end': False, 'min_len': i + 1}]}},
+                                            'line': line, 'exp': False, 'syn': 'unroll'})
+                        nb['stmts'].append({'k': 'assign', 'place': t['dest'], 'rv': _agg('core::option::Option', 'Some', 1, ['0'], [{'k': 'move', 'place': {'l': e_l, 'p': []}}], da),
+                                            'line': line, 'exp': False, 'syn': 'unroll'})
+                    else:
+                        nb['stmts'].append({'k': 'assign', 'place': t['dest'], 'rv': _agg('core::option::Option', 'None', 0, [], [], da), 'line': line, 'exp': False, 'syn': 'unroll'})
+                    nb['term'] = {'k': 'goto', 'target': base + i * per + idx[S1], 'line': line, 'syn': 'unroll'}
+                elif i == k and x != S1:
+                    # after the last element only H and the branch block run; the rest of this copy is unreachable
+                    nb['term'] = {'k': 'unreachable', 'line': line}
+                    nb['stmts'] = []
+                else:
+                    nb['term'] = _retarget(ob['term'], mapper(i))
+                blocks.append(nb)
+        hb['term'] = {'k': 'goto', 'target': base + idx[H], 'line': line, 'syn': 'unroll'}
+        hb['unrolled'] = True
+        return True
+    return False
